@@ -34,6 +34,7 @@ def shards(tier, seed):
         for part in range(2 if tier == "quick" else 8):
             out.append({"name": f"{kind}-concurrent-{part}", "kind": kind, "what": "concurrent", "part": part, "tier": tier, "seed": seed})
         out.append({"name": f"{kind}-write-failure", "kind": kind, "what": "write_failure", "tier": tier, "seed": seed})
+        out.append({"name": f"{kind}-many-sends", "kind": kind, "what": "many", "tier": tier, "seed": seed})
     for kind in simgw.KINDS:
         out.append({"name": f"{kind}-unencodable", "kind": kind, "what": "unencodable", "tier": tier, "seed": seed})
     for kind in ("ebyte", "yd"):
@@ -423,7 +424,54 @@ def run_reconnect_during_send(spec, acc):
         cleanup()
 
 
+def run_many(spec, acc):
+    """One client instance, ~200 messages in bursts of 1-4 concurrent send() calls under random flow control:
+    every message must come out whole, in order and contiguous - however many were sent before."""
+    dbx = refdb.db()
+    kind = spec["kind"]
+    rng = gen.rng_for(spec["seed"], ID, spec["name"])
+    quick = spec["tier"] == "quick"
+    box, cleanup = install_stub()
+
+    def fast_of(m):
+        return m.PGN == STUB_PGN or any(d.type == "Fast" for d in dbx.by_pgn.get(m.PGN, []))
+    try:
+        for rep in range(2 if quick else 12):
+            msgs = []
+            for i in range(200):
+                box.pop(10 + i % 240, None)
+            msgs = make_messages(dbx, rng, 200, box)
+            for i, m in enumerate(msgs):
+                m.source = 10 + i          # unique attribution
+                if m.PGN == STUB_PGN:
+                    box[m.source] = bytes((m.source * 5 + k) % 256 for k in range(rng.choice([7, 13, 14, 50, 223])))
+            plan = [rng.choice([0, 0, 0, 1, 3]) for _ in range(6000)]
+
+            async def scenario(sim):
+                sim.spawn("connect")
+                await asyncio.sleep(0.1)
+                conn = sim.conns[-1]
+                sim.sent_from = len(conn.written)
+                conn.pause_plan = list(plan)
+                i = 0
+                while i < len(msgs):
+                    burst = rng.randint(1, 4)
+                    for m in msgs[i:i + burst]:
+                        sim.spawn("send", m)
+                    i += burst
+                    await asyncio.sleep(rng.choice([0.0, 0.001, 0.05]))
+                await asyncio.sleep(60.0)
+                await sim.call("close")
+            sim, stats = simgw.run_session(kind, scenario, max_steps=900_000)
+            judge_concurrent(sim, stats, kind, msgs, plan[:40], [0] * 4, acc, fast_of)
+            acc.count("many_sends_sessions")
+    finally:
+        cleanup()
+
+
 def run_shard(spec, acc):
+    if spec["what"] == "many":
+        return run_many(spec, acc)
     if spec["what"] == "reconnect_during_send":
         return run_reconnect_during_send(spec, acc)
     {"concurrent": run_concurrent, "unencodable": run_unencodable, "write_failure": run_write_failure}[spec["what"]](spec, acc)
